@@ -202,7 +202,7 @@ def main():
             shape  = dict(shape)
             ranges = shape.pop('_ranges', None)
             base = {'module': ob.module, 'name': ob.name, 'shape': shape,
-                    'gen_dir': gen_dir, 'ranges': ranges,
+                    'gen_dir': gen_dir, 'ranges': ranges, 'tier': tier,
                     'path_timeout': ob.path_timeout,
                     'excl': excl.get((ob.module, ob.name), [])}
             for tw in ob.twins:
@@ -252,6 +252,7 @@ def main():
     paths      = 0
     reached    = 0
     cpu        = 0.0
+    queries    = 0
 
     for kind, ob, spec, res in results:
         paths += int(res.get('paths') or 0)
@@ -288,6 +289,12 @@ def main():
 
         n_obl   += 1
         reached += sum((res.get('reached') or {}).values())
+        if res.get('queries'):
+            queries += int(res['queries'])
+        for smp in (res.get('samples') or [])[:4]:
+            if len(samples) < 16:
+                samples.append({'harness': ob.name, 'sample': smp})
+        called.update(tuple(c) for c in res.get('called') or [])
         if st == 'confirmed':
             n_dis += 1
         elif st == 'refuted':
@@ -364,6 +371,7 @@ def main():
                                   "harness's property assertion (api.reach), "
                                   'counted in the worker processes',
             'paths_total'       : paths,
+            'solver_queries'    : queries,
             'solver_cpu_s'      : round(cpu, 1),
             'vacuity_twins'     : twins_all,
             'vacuity_twins_ok'  : twins_ok,
